@@ -53,17 +53,11 @@ func vfFindRes(rs []vfPhaseRes, name string) int {
 	return k
 }
 
-// H_C16_sched_phase: for every interleaving (bounded preemption) of producer, workers and the closing goroutine, the result
-// stream is closed, holds exactly one result per input, equal to the 1-thread results; inputs unmodified; no data race.
-// bounds: 2 concrete input sequences embedding the ORF ATGAAATAA with flanks, explicit reference ORF, translate on/off, cpus in {1,2}, preemption bound 1, context switches at synchronisation operations
-// outside: more sequences/workers, symbolic sequence contents (see H_C16_frame_*), preemption between non-synchronising instructions (race check instead)
-//verif: sched=1 race=1 preempt=1
-func H_C16_sched_phase() {
-	translate := nondetRange(0, 1) == 1
-	cpus := nondetRange(1, 2)
-	in := []string{"CCATGAAATAAGG", "ATGAAGTAAC"}
+// vfSchedPhase: Phase under every explored interleaving against the one-thread run.
+func vfSchedPhase(translate bool, cpus int) {
+	in := []string{"CATGGAAG", "ATGGAGT"}
 	seqs := vfBag(NUCLEOTIDS, in...)
-	orfs := vfBag(NUCLEOTIDS, "ATGAAATAA")
+	orfs := vfBag(NUCLEOTIDS, "ATGGAA")
 	ph := NewPhaser()
 	ph.SetCpus(cpus)
 	ph.SetTranslate(translate, GENETIC_CODE_STANDARD)
@@ -73,13 +67,27 @@ func H_C16_sched_phase() {
 	verifReach("closed")
 	verifAssert(nerr == 0, "no alignment error on these inputs")
 	verifAssert(len(res) == 2, "exactly one result per input sequence")
-	// reference: the same computation with one worker, run sequentially afterwards
-	ph1 := NewPhaser()
-	ph1.SetCpus(1)
-	ph1.SetTranslate(translate, GENETIC_CODE_STANDARD)
-	ch1, _ := ph1.Phase(orfs, seqs)
-	ref, _ := vfCollect(ch1)
-	verifAssert(len(ref) == 2, "one-thread run gives one result per input")
+	// reference: the per-sequence computation done sequentially in this thread (what a single worker
+	// does, without goroutines, so that the reference itself adds no interleavings)
+	var ref []vfPhaseRes
+	for _, sq := range seqs.Sequences() {
+		var r PhasedSequence
+		var e error
+		if translate {
+			orfsaa, _ := orfs.CloneSeqBag()
+			orfsaa.Translate(0, GENETIC_CODE_STANDARD)
+			r, e = ph.(*phaser).alignAgainstRefsAA(sq, orfsaa.Sequences())
+		} else {
+			r, e = ph.(*phaser).alignAgainstRefsNT(sq, orfs.Sequences())
+		}
+		verifAssert(e == nil && r.Err == nil, "sequential reference computes")
+		x := vfPhaseRes{pos: r.Position, removed: r.Removed, name: r.NtSeq.Name(), nt: string(r.NtSeq.SequenceChar()), codon: string(r.CodonSeq.SequenceChar())}
+		if r.AaSeq != nil {
+			x.aa = string(r.AaSeq.SequenceChar())
+		}
+		ref = append(ref, x)
+	}
+	verifAssert(len(ref) == 2, "sequential reference gives one result per input")
 	for i := 0; i < 2; i++ {
 		k, k1 := vfFindRes(res, vfNames[i]), vfFindRes(ref, vfNames[i])
 		verifAssert(k >= 0 && k1 >= 0, "each input has exactly one result")
@@ -88,6 +96,18 @@ func H_C16_sched_phase() {
 		verifAssert(s == in[i], "inputs are not modified")
 	}
 }
+
+// H_C16_sched_phase: for every interleaving (bounded preemption) of producer, workers and the closing goroutine, the result
+// stream is closed, holds exactly one result per input, equal to the 1-thread results; inputs unmodified; no data race.
+// bounds: 2 concrete input sequences (8 and 7 nt) embedding copies of the ORF ATGGAA, explicit reference ORF, nucleotide mode, 2 workers, delay bound 2 (at most 2 deviations from the default scheduler: keep the running thread, else lowest-numbered runnable), context switches at synchronisation operations (the reference run with 1 worker is itself explored)
+// outside: translated mode and 1 worker (thorough twin), more sequences/workers, symbolic sequence contents (see H_C16_frame_*), preemption between non-synchronising instructions (race check instead)
+//verif: sched=1 race=1 preempt=2
+func H_C16_sched_phase() { vfSchedPhase(false, 2) }
+
+// H_C16_sched_phase_deep: as H_C16_sched_phase, both modes, 1 or 2 workers.
+// bounds: translate on/off, cpus in {1,2}, delay bound 2 (at most 2 deviations from the default scheduler: keep the running thread, else lowest-numbered runnable)
+//verif: sched=1 race=1 preempt=3 tier=thorough
+func H_C16_sched_phase_deep() { vfSchedPhase(nondetRange(0, 1) == 1, nondetRange(1, 2)) }
 
 // vfFrameCheck asserts the framing relations of one phased sequence against its input.
 func vfFrameCheck(ph PhasedSequence, input []uint8, reverse bool, translate bool) {
@@ -130,10 +150,10 @@ func vfFrameCheck(ph PhasedSequence, input []uint8, reverse bool, translate bool
 	}
 }
 
-// vfMutatedORF embeds a copy of the ORF ATGAAA with one symbolic substitution between 0..1 symbolic flank bases.
+// vfMutatedORF embeds a copy of the ORF ATGGAA (its translation ME contains a protein-only letter, so the aligner picks the protein matrix) with one symbolic substitution between 0..1 symbolic flank bases.
 func vfMutatedORF() []uint8 {
 	lf := nondetRange(0, 1)
-	rf := nondetRange(0, 1)
+	rf := nondetRange(0, 1-lf) // at most one flank base in total (quick tier)
 	k := nondetRange(0, 5)
 	var in []uint8
 	base := func() uint8 {
@@ -144,7 +164,7 @@ func vfMutatedORF() []uint8 {
 	for j := 0; j < lf; j++ {
 		in = append(in, base())
 	}
-	orf := []uint8("ATGAAA")
+	orf := []uint8("ATGGAA")
 	orf[k] = base()
 	in = append(in, orf...)
 	for j := 0; j < rf; j++ {
@@ -153,8 +173,8 @@ func vfMutatedORF() []uint8 {
 	return in
 }
 
-// H_C16_frame_nt: nucleotide mode, mutated copy of the ORF ATGAAA in symbolic flanks.
-// bounds: reference ORF ATGAAA (6 nt); input = 0..1 symbolic flank base + the ORF with one symbolic substitution at any position + 0..1 symbolic flank base, bases over {A,C,G,T}; reverse on/off, cut-end on/off, 1 worker
+// H_C16_frame_nt: nucleotide mode, mutated copy of the ORF ATGGAA (its translation ME contains a protein-only letter, so the aligner picks the protein matrix) in symbolic flanks.
+// bounds: reference ORF ATGGAA (its translation ME contains a protein-only letter, so the aligner picks the protein matrix) (6 nt); input = 0..1 symbolic flank base + the ORF with one symbolic substitution at any position + 0..1 symbolic flank base, bases over {A,C,G,T}; reverse on/off, cut-end on/off, 1 worker
 // outside: longer inputs, IUPAC codes, other scoring schemes
 func H_C16_frame_nt() {
 	reverse := nondetRange(0, 1) == 1
@@ -165,7 +185,7 @@ func H_C16_frame_nt() {
 	cp := make([]uint8, L)
 	copy(cp, in)
 	seqs.AddSequenceChar("s0", cp, "")
-	orfs := vfBag(NUCLEOTIDS, "ATGAAA")
+	orfs := vfBag(NUCLEOTIDS, "ATGGAA")
 	ph := NewPhaser()
 	ph.SetCpus(1)
 	ph.SetReverse(reverse)
@@ -188,8 +208,8 @@ func H_C16_frame_nt() {
 	}
 }
 
-// H_C16_frame_aa: translated mode, mutated copy of the ORF ATGAAA in symbolic flanks.
-// bounds: reference ORF ATGAAA; input as in H_C16_frame_nt; reverse off, cut-end on/off, 1 worker
+// H_C16_frame_aa: translated mode, mutated copy of the ORF ATGGAA (its translation ME contains a protein-only letter, so the aligner picks the protein matrix) in symbolic flanks.
+// bounds: reference ORF ATGGAA (its translation ME contains a protein-only letter, so the aligner picks the protein matrix); input as in H_C16_frame_nt; reverse off, cut-end on/off, 1 worker
 // outside: reverse strand in translated mode (thorough twin), longer inputs
 func H_C16_frame_aa() {
 	cutend := nondetRange(0, 1) == 1
@@ -199,7 +219,7 @@ func H_C16_frame_aa() {
 	cp := make([]uint8, L)
 	copy(cp, in)
 	seqs.AddSequenceChar("s0", cp, "")
-	orfs := vfBag(NUCLEOTIDS, "ATGAAA")
+	orfs := vfBag(NUCLEOTIDS, "ATGGAA")
 	ph := NewPhaser()
 	ph.SetCpus(1)
 	ph.SetCutEnd(cutend)
@@ -218,13 +238,13 @@ func H_C16_frame_aa() {
 }
 
 // H_C16_orf_verbatim: a sequence that contains the reference ORF verbatim once is trimmed exactly at the ORF's start.
-// bounds: ORF ATGAAATAA, 0..2 symbolic flank bases over {C,G} on each side (so that the ORF occurs once), both modes, 1 worker
+// bounds: ORF ATGGAATAA, 0..2 symbolic flank bases over {C,G} on each side (so that the ORF occurs once), both modes, 1 worker
 // outside: longer flanks
 func H_C16_orf_verbatim() {
 	lf := nondetRange(0, 2)
 	rf := nondetRange(0, 2)
 	translate := nondetRange(0, 1) == 1
-	orf := "ATGAAATAA"
+	orf := "ATGGAATAA"
 	var in []uint8
 	for k := 0; k < lf; k++ {
 		c := nondetByte()
@@ -273,10 +293,16 @@ func vfLongestFrame(s []uint8) int {
 }
 
 // H_C16_longest_orf: Sequence.LongestORF returns a longest ATG-to-first-in-frame-stop frame of the sequence.
-// bounds: one sequence of 6..9 symbolic bases over {A,T,G}, forward strand
-// outside: longer sequences, both strands (SeqBag.LongestORF is covered for concrete inputs only)
-func H_C16_longest_orf() {
-	L := nondetRange(6, 9)
+// bounds: one sequence of 6..7 symbolic bases over {A,T,G}, forward strand (the regular-expression engine is interpreted from the Go sources: costly)
+// outside: longer sequences (8..9 in the thorough twin), both strands
+func H_C16_longest_orf() { vfLongestORF(nondetRange(6, 7)) }
+
+// H_C16_longest_orf_deep: 8..9 symbolic bases.
+// bounds: one sequence of 8..9 symbolic bases over {A,T,G}
+//verif: tier=thorough
+func H_C16_longest_orf_deep() { vfLongestORF(nondetRange(8, 9)) }
+
+func vfLongestORF(L int) {
 	in := make([]uint8, L)
 	for k := range in {
 		in[k] = nondetByte()
